@@ -41,8 +41,10 @@ TypeRoles == {"type", "qtype", "base"}
 NsD(d) == IF d.kind \in TypeKinds THEN "t" ELSE "v"
 NsR(r) == IF r.role \in TypeRoles THEN "t" ELSE "v"
 
-\* no two declarations of one (case-folded) name in one scope and name space
-WellFormed(p) == \A d, e \in p.decls : (d.scope = e.scope /\ d.name = e.name /\ NsD(d) = NsD(e)) => d.id = e.id
+\* no two declarations of one (case-folded) name in one scope -- whatever they declare: a scope has ONE table of
+\* names (a global variable `nff` next to a type `NFF` makes `x : NFF` unresolvable); the name spaces only decide
+\* which declarations a LOOKUP from a type position / any other position considers on its way outwards
+WellFormed(p) == \A d, e \in p.decls : (d.scope = e.scope /\ d.name = e.name) => d.id = e.id
 
 \* the declarations a reference can see, and the one it denotes (0: none): the innermost
 Visible(p, r) == IF r.mode = "mem" THEN {d \in p.decls : d.name = r.name /\ NsD(d) = NsR(r) /\ d.scope = r.site}
@@ -75,7 +77,7 @@ Preserved(p, q) == WellFormed(q) /\ Binding(q) = Binding(p)
 \*    the renamed reference);
 \*  3 no reference named `new` that can see d's scope and today binds further out or nowhere
 \*    (the renamed d would capture it).
-Clash(p, d, new) == \E e \in p.decls : e.id # d.id /\ e.scope = d.scope /\ e.name = new /\ NsD(e) = NsD(d)
+Clash(p, d, new) == \E e \in p.decls : e.id # d.id /\ e.scope = d.scope /\ e.name = new
 CapturedRefs(p, d, new) ==
   {r \in p.refs : /\ Resolve(p, r) = d.id /\ r.mode = "lex"
                   /\ \E e \in p.decls : /\ e.name = new /\ e.id # d.id /\ NsD(e) = NsD(d) /\ e.scope \in Encl(p.par, r.site)
